@@ -176,8 +176,10 @@ def doc_order(nodes):
     return out
 
 
-def build_tree(shape, names, attrs, combiner):
-    """shape: parent index per node (-1 = top level). Returns (top Entry, node dicts in creation order)"""
+def build_tree(shape, names, attrs, combiner, rewrap=0):
+    """shape: parent index per node (-1 = top level). Returns (top Entry, node dicts in creation order).
+    rewrap: the document is built twice, as the configuration combiners do: a first document Entry, then a new one that adopts its
+    top-level nodes (1), also after the first document was already asked for roots (2)"""
     nodes = []
     for i, p in enumerate(shape):
         nodes.append({"i": i, "name": names[i], "attrs": list(attrs[i]), "children": [], "parent": None})
@@ -194,6 +196,12 @@ def build_tree(shape, names, attrs, combiner):
         n["entry"] = e
         return e
     top = Q.Entry(children=[mk(n) for n in tops], set_parents=not combiner)
+    if rewrap and not combiner:
+        if rewrap == 2:
+            top.find(lambda n: True, roots=True)
+            for n in nodes:
+                n["entry"].root
+        top = Q.Entry(children=list(top.children))
     return top, nodes, tops
 
 
@@ -320,9 +328,10 @@ def make_o1(shapes, nlevels, depth, forms=(0, 1, 2, 3, 4), max_attrs=2, options=
         g = Gen(en)
         levels = [g.level("L%d" % i, depth, forms) for i in range(nl)]
         entry, deep, roots = OPTIONS[en.choice("options", len(OPTIONS))] if options else OPTIONS[0]
-        top, nodes, tops = build_tree(shape, names, attrs, combiner)
+        rewrap = en.choice("rewrap", 3) if (options and roots and not combiner) else 0
+        top, nodes, tops = build_tree(shape, names, attrs, combiner, rewrap)
         case = lambda mv: {"shape": shape, "K": [mv.int(k) for k in K], "names": [mv.int(x) for x in names],  # noqa
-                           "attrs": [[mv.int(a) for a in at] for at in attrs], "combiner": combiner, "levels": levels,
+                           "attrs": [[mv.int(a) for a in at] for at in attrs], "combiner": combiner, "levels": levels, "rewrap": rewrap,
                            "deep": deep, "roots": roots, "entry": entry}
         en.note_sample(case)
         qs = [build_level(l, K) for l in levels]
@@ -488,7 +497,7 @@ def obligations(tier):
                    desc="select / find / [] on every forest against a reference matcher: document order, level-by-level matching, deep, roots, parentless documents",
                    bounds={"nodes": n, "tree shapes": "every forest", "attributes per node": "0-1", "names/attributes": "unconstrained symbolic ints",
                            "query levels": "<= 2", "query forms": "any / name literal / (name, attr, attr) literal tuple",
-                           "options": "%s x combiner-style parentless documents" % (OPTIONS,)},
+                           "options": "%s x combiner-style parentless documents; with roots: the document built once, or re-wrapped in a new document Entry, also after the first one was asked for roots" % (OPTIONS,)},
                    outside=outside, encoded=enc[:15], budget_s=900 if thorough else 100, replay="query", check_sample=True),
         Obligation("O1-predicates", make_o1([[-1, 0, -1]], 1, 2 if thorough else 1, forms=(1, 2, 3, 4, 6), max_attrs=2, options=False), ["exact-matches"],
                    desc="one-level select with every query form against the reference predicate semantics",
@@ -561,7 +570,7 @@ def _native(case):
         shifted = dict(case, _shifted=2, K=[big(k) for k in case["K"]], names=[big(v) for v in case["names"]], attrs=[[big(a) for a in at] for at in case["attrs"]])
         return _native(shifted)
     K = case["K"] if case["_shifted"] == 1 else [int(str(k)) for k in case["K"]]       # (fresh objects once more for the query side)
-    top, nodes, tops = build_tree(case["shape"], case["names"], case["attrs"], case["combiner"])
+    top, nodes, tops = build_tree(case["shape"], case["names"], case["attrs"], case["combiner"], case.get("rewrap", 0))
     qs = [build_level(l, K) for l in case["levels"]]
     if case["entry"] == "select":
         got = top.select(*qs, deep=case["deep"], roots=case["roots"])
